@@ -508,6 +508,16 @@ def shrink_family(fam, cases_a, cases_b):
 
 
 def explore(ck: Check, drv: LeanDriver, r, n: int):
+    done = 0
+    while done < n:
+        step = min(100, n - done)
+        _explore_chunk(ck, drv, r, step)
+        done += step
+        if len(ck.violations) > 500 or len(ck.disagreements) > 2000:
+            break
+
+
+def _explore_chunk(ck: Check, drv: LeanDriver, r, n: int):
     requests, expect = [], []
     for _ in range(n):
         fam = ku.run(gen_family(r))
